@@ -258,6 +258,7 @@ static void cmd_reset(int nt, char **t)
 	}
 	a_err = r1.err; st_a = (int)tok->stack[tok->depth].state; ss_a = (int)tok->stack[tok->depth].saved_state; depth_a = tok->depth;
 	if (st_a >= 0 && st_a < 32 && ss_a >= 0 && ss_a < 32) reset_state_hist[st_a][ss_a]++;
+	if (flags_y != flags && nt > 6) json_tokener_set_flags(tok, flags_y);   /* 7th token present: the new flags are set BEFORE the reset (whatever state the tokener is in) */
 	json_tokener_reset(tok);
 	live_reset = vf_live_blocks - b0;
 	/* repeated interrupt-then-reset cycles must not accumulate anything */
@@ -268,7 +269,7 @@ static void cmd_reset(int nt, char **t)
 		if (i == 0) live_cycle1 = vf_live_blocks - b0;
 	}
 	live_cycleN = vf_live_blocks - b0;
-	if (flags_y != flags) json_tokener_set_flags(tok, flags_y);
+	if (flags_y != flags && nt <= 6) json_tokener_set_flags(tok, flags_y);
 	buf = (char *)malloc(ny ? ny : 1); memcpy(buf, y, ny);
 	o = json_tokener_parse_ex(tok, buf, (int)ny); take(tok, o, ny, &r2); free(buf);
 	json_tokener_free(tok);
